@@ -305,7 +305,7 @@ theorem rvalueSimple_cases {d : Dest} {cg : CG} {st st' : St} {b : Bool} (h : In
   · rw [if_pos hu] at he
     obtain ⟨_, s1, h1, h2⟩ := bind_ok_inv he
     have hi1 := ok_of_spec (t := false) spec_skipToken h h1
-    rcases currentConstant_cases hi1.1 with ⟨v, hv, hty⟩ | ⟨hty, hv⟩
+    rcases currentConstant_cases hi1.1 with ⟨v, hv, hty⟩ | ⟨hty, hv⟩ | ⟨_, hv⟩
     · rw [bind_ok hv] at h2
       rcases rvalueValue_cases hi1.1 h2 (isSome_ne_eof hty) with ⟨hb, hl⟩ | ⟨_, _, _, hf⟩
       · exact .inl ⟨hb, by omega⟩
@@ -313,10 +313,11 @@ theorem rvalueSimple_cases {d : Dest} {cg : CG} {st st' : St} {b : Bool} (h : In
     · rw [bind_ok hv] at h2
       rw [hu] at h2
       simp [rvalueValue, triggerError] at h2
+    · rw [bind_run, hv] at h2; cases h2
   · rw [if_neg hu] at he
     rw [bind_ok (pure_run () st)] at he
     have hu' : st.cur.isMark "-" = false := by simpa using hu
-    rcases currentConstant_cases h with ⟨v, hv, hty⟩ | ⟨hty, hv⟩
+    rcases currentConstant_cases h with ⟨v, hv, hty⟩ | ⟨hty, hv⟩ | ⟨_, hv⟩
     · rw [bind_ok hv] at he
       rcases rvalueValue_cases h he (isSome_ne_eof hty) with ⟨hb, hl⟩ | ⟨hb, hs, hn, _⟩
       · exact .inl ⟨hb, hl⟩
@@ -324,6 +325,7 @@ theorem rvalueSimple_cases {d : Dest} {cg : CG} {st st' : St} {b : Bool} (h : In
     · rw [bind_ok hv, hu'] at he
       have : (st.addError (tpMsg st)).cur.ty = .timePattern := hty
       simp [rvalueValue, getSt_bind, this, tokenError, triggerError] at he
+    · rw [bind_run, hv] at he; cases he
 
 
 theorem isMark_ne_eof {t : Tok} {m : String} (h : t.isMark m = true) : t.ty ≠ .eof := by
